@@ -319,6 +319,12 @@ func runCheck(repo, verifDir, prop, tier string) int {
 		cr.vcs = append(cr.vcs, vc)
 		cr.nLemmas++
 	}
+	// package-level variables must not be written outside init (enum maps, sentinels, constants read as fixed)
+	if gw := e.globalsWritten(); len(gw) > 0 {
+		cr.extraObl = append(cr.extraObl, &Obligation{Name: "globals#immutable", Kind: "scan", Status: "failed", Clause: "package-level variables are written outside init: " + strings.Join(gw, "; ")})
+	} else {
+		cr.extraObl = append(cr.extraObl, &Obligation{Name: "globals#immutable", Kind: "scan", Status: "discharged", Solver: "ssa-scan", Clause: "no in-repo function stores to a package-level variable outside init"})
+	}
 	done := map[string]bool{}
 	verify := func(t target) {
 		e.selfIface = t.selfIface
